@@ -50,6 +50,7 @@ type step struct {
 	BH    int    `json:"bh,omitempty"`
 	// head
 	To       uint64 `json:"to,omitempty"`
+	Hold     bool   `json:"hold,omitempty"` // log: the node answers the block-time lookup only after head To has been processed
 	PollFail int    `json:"pollfail,omitempty"`
 	ErrTx    []int  `json:"errtx,omitempty"`
 	ErrAll   bool   `json:"errall,omitempty"`
@@ -438,16 +439,49 @@ func (sc *scen) pendingEmpty() bool {
 // settle waits until the watcher has processed the node's current head (its own "processing / processed new header" log lines
 // are the trace of head processing), or has nothing pending: the poller is then switched off.  The head the node had when the
 // poller started is never published (the poller publishes only heads above its lastBlock), so it counts as processed.
+// pollerDeadline: with messages pending the block poller asks the node for its head every PollMs (1 ms); not a single request for this
+// long means that it is switched off
+const pollerDeadline = 5 * time.Second
+
+// pendingWithPollerOff reports the state "w.pending is not empty, no insertion is in flight, and the block poller does not poll":
+// nothing pending can then be forwarded, dropped or abandoned, however far the chain advances, until some other log arrives
+func (sc *scen) pendingWithPollerOff(when string) {
+	pend := sortedPend(sc.pendingSnapshot())
+	sc.sim.mu.Lock()
+	head, lastProc := sc.sim.head, sc.sim.lastProcessed
+	sc.sim.mu.Unlock()
+	sc.monf("liveness:pending-with-poller-off", "%s: w.pending holds %d message(s) (tx, block hash, emitter, sequence) %v and the block poller has not asked the node for its head for %v (poll interval %d ms): the poller is switched off, the node's head is %d, the last head the watcher processed is %d; nothing pending is forwarded, dropped or abandoned until another log arrives (Run was entered %d times, returned %d times)",
+		when, len(pend), pend, pollerDeadline, sc.cfg.PollMs, head, lastProc, atomic.LoadInt64(&sc.runs), atomic.LoadInt64(&sc.deaths))
+	sc.pollerOff = true
+}
+
+// pollerAlive waits until the poller has asked the node for its head twice more (true) or pollerDeadline has gone by (false)
+func (sc *scen) pollerAlive() bool {
+	sc.sim.mu.Lock()
+	p0 := sc.sim.pollsArrived
+	sc.sim.mu.Unlock()
+	return waitUntil(pollerDeadline, func() bool {
+		sc.sim.mu.Lock()
+		defer sc.sim.mu.Unlock()
+		return sc.sim.pollsArrived >= p0+2
+	})
+}
+
+// settle waits until the watcher has processed the node's current head (its own "processing / processed new header" log lines
+// are the trace of head processing), or has nothing pending: the poller is then switched off.  The head the node had when the
+// poller started is never published (the poller publishes only heads above its lastBlock), so it counts as processed.
 func (sc *scen) settle(what string) {
 	if sc.pollerOff {
-		// Run was re-entered and no log has arrived since: the new poller is off, no head will be processed (extension X4).  Give a
-		// head that is in flight against expectation the time to show up in the trace, then go on.
+		// the poller is known to be off (nothing was pending when Run was re-entered, or the state was reported by pendingWithPollerOff):
+		// no head will be processed until the next log.  Give a head that is in flight against expectation the time to show up, then go on.
 		time.Sleep(60 * time.Millisecond)
 		return
 	}
 	sc.sim.mu.Lock()
 	p0 := sc.sim.pollsArrived
 	sc.sim.mu.Unlock()
+	t0 := time.Now()
+	silent := false
 	ok := waitUntil(rendezvousTimeout, func() bool {
 		if sc.died.Load() != nil {
 			return true
@@ -460,8 +494,19 @@ func (sc *scen) settle(what string) {
 				return false
 			}
 		}
-		return empty || sc.sim.lastProcessed >= sc.sim.head
+		if empty || sc.sim.lastProcessed >= sc.sim.head {
+			return true
+		}
+		if sc.sim.pollsArrived == p0 && time.Since(t0) >= pollerDeadline {
+			silent = true // messages pending, heads to process, and not one poll
+			return true
+		}
+		return false
 	})
+	if silent {
+		sc.pendingWithPollerOff("after " + what)
+		return
+	}
 	if !ok {
 		sc.sim.mu.Lock()
 		open := 0
@@ -593,7 +638,56 @@ func (sc *scen) runStep(si int, st *step) {
 			logKey = [4]uint64{}
 			break
 		}
+		var hold chan struct{}
+		if st.Op == "log" && st.Hold {
+			// the node answers this log's block-time lookup only after the head st.To has been processed
+			hold = make(chan struct{})
+			sim.mu.Lock()
+			sim.bbhHold[st.BH] = hold
+			sim.mu.Unlock()
+		}
+		bbh0 := 0
+		if hold != nil {
+			sim.mu.Lock()
+			bbh0 = sim.bbhCalls[hID(kindBlock, uint64(st.BH))]
+			sim.mu.Unlock()
+		}
 		sent := sim.push(l.ethLog(st.BH, st.Block, 0))
+		if hold != nil {
+			if sent {
+				if !waitUntil(rendezvousTimeout, func() bool {
+					sim.mu.Lock()
+					defer sim.mu.Unlock()
+					return sim.bbhCalls[hID(kindBlock, uint64(st.BH))] > bbh0
+				}) {
+					sc.harnessf("step %d: the watcher never asked for the block time of the pushed log", si)
+				}
+				sim.mu.Lock()
+				if st.To > sim.head {
+					sim.head = st.To
+					sim.headHash = hID(kindHead, sim.head)
+				}
+				sim.mu.Unlock()
+				// the head is processed (or nothing is pending any more) while the lookup is in flight
+				waitUntil(rendezvousTimeout, func() bool {
+					empty := sc.pendingEmpty()
+					sim.mu.Lock()
+					defer sim.mu.Unlock()
+					for i := len(sim.scans) - 1; i >= 0 && i >= len(sim.scans)-3; i-- {
+						if sim.scans[i].Open {
+							return false
+						}
+					}
+					return empty || sim.lastProcessed >= sim.head
+				})
+				time.Sleep(20 * time.Millisecond)
+				sc.stats["held_logs"]++
+			}
+			sim.mu.Lock()
+			delete(sim.bbhHold, st.BH)
+			sim.mu.Unlock()
+			close(hold)
+		}
 		if st.Op == "foreign" {
 			sc.stats["foreign_pushed"]++
 			if sent {
@@ -778,8 +872,14 @@ func (sc *scen) runStep(si int, st *step) {
 			break
 		}
 		time.Sleep(100 * time.Millisecond)
-		sc.pollerOff = true
 		sc.stats["restarts"] += int(expected)
+		if sc.pendingEmpty() {
+			sc.pollerOff = true // nothing pending: the new poller stays off until the next log
+		} else if sc.pollerAlive() {
+			sc.pollerOff = false
+		} else {
+			sc.pendingWithPollerOff(fmt.Sprintf("step %d: Run returned (%s) and was re-entered on the same Watcher value", si, st.Kill))
+		}
 		sim.mu.Lock()
 		cs := append([]gsCall(nil), sim.gs.calls[calls0:]...)
 		// the new poller takes the node's head at its start as its first lastBlock: a head it never publishes (as at the first start)
@@ -1258,15 +1358,15 @@ drainSets:
 			}
 		}
 	}
-	// (x) extension X4, experimental (reported, not registered as a problem): Run was re-entered, nothing switched the new poller on,
-	// the node's head is past the depth of a pending message whose receipt is unchanged - and no head is processed
+	// (x) the poller is off (reported by pendingWithPollerOff), the node's head is past the depth of a pending message whose receipt is
+	// unchanged - and no head is processed: the property's liveness clause on this very message
 	if sc.pollerOff && (st.Op == "head" || st.Op == "stall" || st.Op == "restart") && len(scans) == 0 {
 		for key, inst := range sc.insts {
 			_, stillPending := pend[key]
 			r := rcptOf(inst.log.Tx)
 			if inst.awaiting && stillPending && inst.log.Tx != sentinelTx && inst.block+sc.expected(inst.log.CL) <= headNow && r != nil && r.Status == 1 && r.BH == inst.bh {
-				sc.exp = append(sc.exp, fmt.Sprintf("restart:pending-stalled|step %d (%s): Run was re-entered and its new poller is off: the node's head is %d, tx %d (block %d, level %d, receipt unchanged) is pending and confirmable, no head is processed until another log arrives",
-					si, st.Op, headNow, inst.log.Tx, inst.block, inst.log.CL))
+				sc.monf("liveness:pending-with-poller-off", "step %d (%s): the node's head is %d, tx %d (block %d, level %d, receipt unchanged: status 1, same block) is pending and confirmable, the block poller is off and no head is processed until another log arrives",
+					si, st.Op, headNow, inst.log.Tx, inst.block, inst.log.CL)
 				break
 			}
 		}
@@ -1329,8 +1429,8 @@ func runScenario(sid int, cfg scenCfg, script []step) histRow {
 			}
 		}
 		if sc.stats[fmt.Sprintf("fwdbody_%d", li.log.Body)] == 0 && !reannounced && r != nil && r.Status == 1 && r.BH == li.bh && li.block+sc.expected(li.log.CL) <= lastProc {
-			sc.exp = append(sc.exp, fmt.Sprintf("restart:log-lost|the block-time lookup of the log of tx %d (block %d, level %d) failed once: Run returned, the log was never recorded; its receipt is unchanged (status 1, same block), the watcher has processed head %d (node head %d) and the message was never forwarded",
-				li.log.Tx, li.block, li.log.CL, lastProc, head))
+			sc.monf("liveness:log-lost-on-blocktime-error", "the block-time lookup (eth_getBlockByHash) of the log of tx %d (block %d, level %d) failed once: Run returned and the log was never recorded; its receipt is unchanged (status 1, same block), the watcher has since processed head %d (node head %d) and the message was never forwarded",
+				li.log.Tx, li.block, li.log.CL, lastProc, head)
 		}
 	}
 	for k := range sc.stats {
@@ -1618,6 +1718,11 @@ func corpus() []struct {
 		{scenCfg{Wait: false, Finalized: true, Head0: 1000, PollMs: 1, Name: "reobs-not-final-nothing-pending"},
 			[]step{{Op: "log", Tx: 1, Body: 1, Em: 1, Seq: 1, CL: 1, Block: 1000, BH: 1}, hd(1001), {Op: "reorg", Tx: 1, How: "moved", BH: 9, Block: 1030}, {Op: "reobs", Tx: 1}, hd(1031), {Op: "reobs", Tx: 1}}},
 		{scenCfg{Wait: false, Head0: 1000, PollMs: 1, Name: "no-wait-mode"}, []step{lg(1, 1, 1001, 200), hd(1001), lg(2, 2, 1001, 15), hd(1002)}},
+		// the head that confirms message 1 (and empties w.pending: DisablePoller) is processed while the block-time lookup of log 2 is in
+		// flight: log 2 must still be inserted with the poller switched on
+		{scenCfg{Wait: true, Head0: 999, PollMs: 1, Name: "log-inserted-while-pending-empties"},
+			[]step{lg(1, 1, 1000, 1), {Op: "log", Tx: 2, Body: 2, Em: 1, Seq: 2, CL: 1, Block: 1001, BH: 2, Hold: true, To: 1001}, hd(1002), hd(1003),
+				lg(3, 3, 1003, 1), {Op: "log", Tx: 4, Body: 4, Em: 1, Seq: 4, CL: 2, Block: 1004, BH: 4, Hold: true, To: 1005}, hd(1006), hd(1007)}},
 		// ---- extension X4: Run returns (errC) and the supervisor re-enters it on the same Watcher value
 		{scenCfg{Wait: true, Head0: 999, PollMs: 1, Name: "restart-pending-survives-poller-off-until-next-log"},
 			[]step{lg(1, 1, 1000, 2), hd(1001), {Op: "restart", Kill: "blocktime", Tx: 2, Body: 2, Em: 1, Seq: 2, CL: 1, Block: 1001, BH: 2},
